@@ -25,6 +25,7 @@ type Engine struct {
 	modsetsM  map[*ssa.Function]*ModSet
 	prov      *provAnalysis
 	candCache map[string]map[CandKey]bool
+	effCache  map[string]*Contract
 	implCache map[string][]*ssa.Function
 	specFuncs map[string]func(ev *Env, e *ECall) Value
 	funcIDs   map[string]int
@@ -353,6 +354,7 @@ type fx struct {
 	nq        int
 	unsupported []string
 	facetOK   func(facet string) bool
+	tables     map[Term]*tableInfo
 	candActive map[CandKey]bool
 	candFail   map[CandKey]bool
 }
@@ -739,6 +741,26 @@ func (fx *fx) valEq(a, b Value) Term {
 		default:
 			return Eq(a.T, "0")
 		}
+	}
+	// comparing an interface with a concrete value converts the value to the interface type first
+	if a.Kind != KIface && b.Kind == KIface {
+		a, b = b, a
+	}
+	if a.Kind == KIface && b.Kind != KIface && b.Typ != nil {
+		payload := Term("0")
+		switch b.Kind {
+		case KInt:
+			payload = b.T
+		case KBool:
+			payload = BoolToInt(b.T)
+		case KStruct:
+			if len(b.Elems) > 0 {
+				return fx.enc.Decl("ifacecmp", "Bool")
+			}
+		default:
+			return fx.enc.Decl("ifacecmp", "Bool")
+		}
+		return And(Eq(a.Tag, Num(int64(fx.E.typeID(b.Typ)))), Eq(a.T, payload))
 	}
 	switch a.Kind {
 	case KBool:
